@@ -376,7 +376,7 @@ def first_text_diff(a, b):
 PROP = C01()
 
 MANIFEST = dict(
-    technique="Lean 4 proof over a typed model of the composeinfo writer/reader (nested-inductive variant forest, uid-keyed flattening with setdefault refusal, fuel-based rebuild), validators taken from the rule lists regenerated from the source; model tied by byte-exact differential correspondence; round-trip oracle on the real library",
-    text="C01_readback: serialize ci = ok j -> deserialize j = ok (norm ci) for forests of any depth/width, any arches and paths; C01_fixpoint/C01_bytes: the re-read object is written to the same bytes; C01_norm_id: norm is the identity on normal objects and only performs the documented normalisations.",
-    note="Modelled, not verified: json parser assumed to invert the printer (explicit hypothesis of C01_bytes); typed attribute domain; str.lower on ASCII. Header versions < 1.0 are refused by the model reader (C05).",
+    technique="Lean 4 proof over a typed model of the composeinfo writer/reader (nested-inductive variant forest, uid-keyed flattening with the setdefault refusal, fuel-based rebuild with every add()/validate() of the code), validators taken from the rule lists regenerated from the source; model tied by byte-exact differential correspondence (dumps text, parsed document, loads snapshot, second dump, refusal classes); round-trip oracle on the real library",
+    text="C01_readback: serialize ci = ok j -> deserialize j = ok (norm ci) for forests of any depth and width, any arches and paths, layered-product releases, base product, label/final; C01_fixpoint: serialize (norm ci) = ok j (same document), C01_bytes: dumps -> parse -> loads -> dumps gives the same text (json.load inverting the printer is an explicit hypothesis); C01_norm_id/C01_norm_sections/C01_norm_variant/C01_stored_path: norm is the identity on normal objects and performs only the documented normalisations. Hypotheses (explicit, decidable): dict keys are the ids with no key twice (what add() builds) and all UIDs distinct; C01_duplicate_uids_agree proves the writer refuses conflicting duplicates, C01_keyed_by_uid_witness shows the key convention is needed. Lemmas about the generated validators (UID alignment, release type table, blank release/base product refused, empty label refused) stop compiling when the validator is removed.",
+    note="Modelled, not verified: json parser assumed to invert the printer (hypothesis of C01_bytes, exercised on every case); typed attribute domain (fields hold values of the validated types; bool respin, non-string paths are outside); forest as built by add(); str.lower on ASCII. Header versions < 1.0 are refused by the model reader (gates are in place for C05). 'successful serialize implies UidsDistinct' is argued in docs/mutants_C01.md, not proved.",
     ref="7/C01")
